@@ -228,9 +228,31 @@ func (u *vc04Upstream) ServeDNS(ctx context.Context, rw dnsserver.ResponseWriter
 	return rw.WriteMsg(ctx, req, vdns.Answer(req, "", false))
 }
 
+// vc04ServerRW is the client-facing response writer: it keeps a copy of what
+// was written and then edits the written message in place as the UDP server does
+// with a response that does not fit (see vdns.ServerEdits).
+type vc04ServerRW struct {
+	dnsserver.ResponseWriter
+
+	got *dns.Msg
+}
+
+func (w *vc04ServerRW) WriteMsg(_ context.Context, _, resp *dns.Msg) (err error) {
+	w.got = resp.Copy()
+	vdns.ServerEdits(resp)
+
+	return nil
+}
+
+func (w *vc04ServerRW) Msg() (m *dns.Msg) { return w.got }
+
+func vc04NewRW(addr net.Addr) (w *vc04ServerRW) {
+	return &vc04ServerRW{ResponseWriter: dnsserver.NewNonWriterResponseWriter(addr, addr)}
+}
+
 func vc04Exchange(t *rapid.T, h dnsserver.Handler, req *dns.Msg) (resp *dns.Msg) {
 	addr := &net.UDPAddr{IP: net.IP{192, 0, 2, 77}, Port: 5353}
-	nrw := dnsserver.NewNonWriterResponseWriter(addr, addr)
+	nrw := vc04NewRW(addr)
 	err := h.ServeDNS(context.Background(), nrw, req)
 	// A handler error (the server then answers SERVFAIL) and a handler that
 	// writes nothing are outcomes like any other: they are rendered as marker
@@ -334,7 +356,7 @@ func TestVerifC04History(t *testing.T) {
 
 				q = vq{
 					name: name,
-					qt:   rapid.SampledFrom([]uint16{dns.TypeA, dns.TypeA, dns.TypeAAAA, dns.TypeTXT, dns.TypeHTTPS, dns.TypeHTTPS, 97, 321, dns.TypeMX}).Draw(t, "qt"),
+					qt:   rapid.SampledFrom([]uint16{dns.TypeA, dns.TypeA, dns.TypeAAAA, dns.TypeTXT, dns.TypeHTTPS, dns.TypeHTTPS, 97, 321, dns.TypeMX, dns.TypeSRV, dns.TypeSRV, dns.TypePTR}).Draw(t, "qt"),
 					qc:   rapid.SampledFrom([]uint16{dns.ClassINET, dns.ClassINET, dns.ClassINET, dns.ClassCHAOS}).Draw(t, "qc"),
 					do:   rapid.IntRange(0, 3).Draw(t, "do") == 0,
 				}
@@ -693,7 +715,7 @@ func (vc04LockedUpstream) ServeDNS(ctx context.Context, rw dnsserver.ResponseWri
 // goroutines).
 func vc04ExchangePlain(h dnsserver.Handler, req *dns.Msg) (resp *dns.Msg) {
 	addr := &net.UDPAddr{IP: net.IP{192, 0, 2, 77}, Port: 5353}
-	nrw := dnsserver.NewNonWriterResponseWriter(addr, addr)
+	nrw := vc04NewRW(addr)
 	if err := h.ServeDNS(context.Background(), nrw, req); err != nil {
 		resp = (&dns.Msg{}).SetReply(req)
 		resp.Rcode = 3841
